@@ -652,6 +652,8 @@ class Gen:
     # ------------------------------------------------------------------ main
     def next_step(self, runner):
         v = self.view(runner)
+        if v["joint"] > self.maxdim:
+            return None
         if not v["w"].ces and self.p(self.opts.get("p_early_composite", 0.6)) and len(runner.records) < 2:
             st = self.step_composite(v)
             if st:
